@@ -1,4 +1,4 @@
-\* Agent: mode=remote UpgradeSend=drop UpgradeRecheck=TRUE; 3 clients x 2 calls, channel capacity 2
+\* Agent: mode=local UpgradeSend=drop UpgradeRecheck=TRUE; 3 clients x 1 calls, channel capacity 2
 SPECIFICATION Spec
 CONSTANTS
     Clients = {"c1", "c2", "c3"}
@@ -11,13 +11,13 @@ CONSTANTS
     NCap = 2
     UCap = 2
     SemCap = 1
-    Mode = "remote"
+    Mode = "local"
     UpgradeSend = "drop"
     UpgraderSem = "drop"
-    Reloads = {}
+    Reloads = {1, 2}
     IOFaults = FALSE
-    UpgradeRecheck = "full"
-    MaxCalls = 2
+    UpgradeRecheck = "setonly"
+    MaxCalls = 1
     Kinds = {"auth", "update", "remove"}
     InitFiles <- MCInit1
 INVARIANTS TypeOK AckedNotUndone NoUpgradeWhenOff NotifyMatchesMutations NotifyAllWhenIdle
